@@ -54,3 +54,8 @@ func vfPoint(id int)             { panic("vf intrinsic") }
 func vfLockHeld(lock interface{}) int { panic("vf intrinsic") }
 func vfMonitorWrites(lock interface{}, roots ...interface{}) { panic("vf intrinsic") }
 func vfMonitorResult() (badWrites, badReads, writes, reads int) { panic("vf intrinsic") }
+
+// instrumentation hooks (inserted by the engine's source instrumenter, see engine/gosym/instr.go)
+func vfSpawn() int { panic("vf intrinsic") }
+func vfEnter(g int) { panic("vf intrinsic") }
+func vfExit(g int)  { panic("vf intrinsic") }
